@@ -647,9 +647,11 @@ spf_makroletter(const char *p, const char *domain, int ex, char **res, unsigned 
 		case -1:
 			return -1;
 		case -2:
-			return SPF_TEMPERROR;
+			free(*res);
+			return -SPF_TEMPERROR;
 		case -3:
-			return SPF_DNS_HARD_ERROR;
+			free(*res);
+			return -SPF_DNS_HARD_ERROR;
 		default:
 			{
 			int k = spf_appendmakro(res, l, validdomains[0],
@@ -775,8 +777,9 @@ spf_makro(const char *token, const char *domain, int ex, char **result)
 				z = spf_makroletter(++p, domain, ex, &res, &l);
 				if (z == -1) {
 					return z;
-				} else if (z == -SPF_PERMERROR) {
-					return SPF_PERMERROR;
+				} else if (z < 0) {
+					/* syntax or DNS error, res has already been freed */
+					return -z;
 				} else if (!z || (*(p + z) != '}')) {
 					free(res);
 					return SPF_PERMERROR;
